@@ -1,6 +1,6 @@
 (* C03 — every encoded packet ends with the correct SMBus PEC.  Property theorems only. *)
 Require Import Base Crc Bitfield Headers Encode Decode Process Ops Spec Judge.
-Require Import CrcFacts PecFacts Hist StepsEncode.
+Require Import CrcFacts PecFacts Hist StepsEncode Extra.
 Open Scope N_scope.
 
 (* (1) For every operation on every context in either overflow mode, a successful encode leaves a buffer whose
@@ -25,6 +25,13 @@ Theorem C03_remainder_unique :
     M = N.lxor (mulg q1) r1 -> M = N.lxor (mulg q2) r2 -> r1 = r2.
 Proof. exact remainder_unique. Qed.
 
+(* (4) the responses process_packet writes: whenever process_packet reports a response of n bytes, for any
+   context, any packet, any response buffer and either overflow mode, byte n-1 of the buffer is the PEC of bytes
+   0..n-2 and the CRC of all n bytes is 0 *)
+Theorem C03_responses_end_with_pec : forall ovf c p buf c' b d n,
+  process_packet ovf c p buf = ((c', b), Val (inl (d, Some n))) -> pec_ok n b = true.
+Proof. exact responses_end_with_pec. Qed.
+
 (* non-vacuity: a concrete encode whose result is Ok(14) and satisfies the statement *)
 Example C03_nonvacuous :
   exists out, snd (step true (ctx_new 0x23 [] []) (OEncode true 1 [0x34; 0; 0x56] [] (repeat 0 14))) = XEnc (Some 14%nat) out
@@ -35,3 +42,4 @@ Print Assumptions C03_encoded_packet_ends_with_pec.
 Print Assumptions C03_oracle_holds_on_model.
 Print Assumptions C03_pec_is_polynomial_remainder.
 Print Assumptions C03_remainder_unique.
+Print Assumptions C03_responses_end_with_pec.
